@@ -38,7 +38,7 @@ CHECKS = {
         text="On every feasible path of every configuration the reported Kemeny score equals the definition score of each "
              "returned ranking for all penalties compatible with the path; BioConsert's initial score and incremental deltas "
              "are checked inductively from any dense state and any cost table (n<=4, thorough 5); the PuLP stand-in is compared "
-             "with real PuLP+CBC on corner instances.",
+             "with real PuLP+CBC on corner instances; one algorithm object on two datasets, both scores read afterwards.",
         design="4/C04"),
     "C08": dict(
         technique="merge-mode bounded symbolic execution of the BioConsert kernels as an inductive step (any dense ranking, any "
